@@ -128,15 +128,15 @@ def gen_bad_set(rng, base):
     """A configuration update the statements list as rejected.  -> (kind, literal)."""
     kind = rng.choice(("no_q", "bad_key", "bad_key", "odd_key", "bad_value", "bad_value",
                        "bad_preset", "bad_arg", "key_obj", "bad_value"))
-    if kind == "bad_value" and rng.random() < 0.25:
+    if kind == "bad_value" and rng.random() < 0.25 and any(v < 10 ** 9 for v in base.values()):
         # the table in force, spelt with a non-int capacity that compares equal (4.0, 4+0j)
         items = list(base.items())
         if rng.random() < 0.5:
             rng.shuffle(items)
-        j = rng.randrange(len(items))
+        j = rng.choice([i for i, (k, v) in enumerate(items) if v < 10 ** 9])     # (a float cannot spell 10**400)
         parts = []
         for i, (k, v) in enumerate(items):
-            if i == j or rng.random() < 0.2:
+            if i == j or (v < 10 ** 9 and rng.random() < 0.2):
                 parts.append("%r: %s" % (k, rng.choice(("%d.0" % v, "(%d+0j)" % v))))
             else:
                 parts.append("%r: %r" % (k, v))
